@@ -26,7 +26,7 @@ func init() {
 		Rule: "one run = one valid minter configuration (generator of C02) and 3-8 measuring pairs of millisecond-aligned blocks placed inside single steps (first and later steps of exponential periods, linear periods with " +
 			"aligned and unaligned bounds, before the start, inside no-minting periods, right after period ends); non-trivial = at least one pair with expected mint >= 100 units was measured; " +
 			"distinct = hash of the kinds of periods measured, probes and outcome",
-		Quick:      Tier{Runs: 1500, BudgetSec: 50},
+		Quick:      Tier{Runs: 4000, BudgetSec: 50},
 		Thorough:   Tier{Runs: 80000, BudgetSec: 780},
 		RunSeed:    c19RunSeed,
 		Replay:     c19Replay,
